@@ -418,6 +418,21 @@ func c01Gen(rng *rand.Rand, tier string) []Case {
 			fmt.Sprintf("restart %d 0", who), "sleep 700", "settle " + exp3}
 		out = append(out, Case{ID: fmt.Sprintf("fl%d", i), Ops: ops, Nontrivial: true, Tags: []string{"failed-left-rejoin"}})
 	}
+	// directed: a member leaves, restarts while one observer is cut off (so that observer misses its second life),
+	// and then crashes; after the heal everybody must list it as failed
+	{
+		exp4 := "n0=n0:alive,n1:alive,n2:alive,n3:alive;n1=n0:alive,n1:alive,n2:alive,n3:alive;n2=n0:alive,n1:alive,n2:alive,n3:alive;n3=n0:alive,n1:alive,n2:alive,n3:alive"
+		mk := func(st string) string {
+			var parts []string
+			for _, a := range []int{0, 2, 3} {
+				parts = append(parts, fmt.Sprintf("n%d=n0:alive,?n1:%s,n2:alive,n3:alive", a, st))
+			}
+			return strings.Join(parts, ";")
+		}
+		ops := []string{"nodes 4", "join 1 0", "join 2 0", "join 3 0", "settle " + exp4,
+			"leave 1", "settle " + mk("left"), "partition 3", "sleep 300", "restart 1 0", "sleep 900", "kill 1", "sleep 900", "heal", "settle " + mk("failed")}
+		out = append(out, Case{ID: "sl0", Ops: ops, Nontrivial: true, Tags: []string{"second-life-missed-then-crash"}})
+	}
 	// directed: a member leaves gracefully while one observer is cut off from it (the leaver stays connected to
 	// the others); after the heal the observer, which only saw it fail, must learn through state sync that it left
 	for i, obs := range []int{3, 0} {
